@@ -194,7 +194,7 @@ end Fit
 def checkParams (nmin nmax : Nat) (lo hi : Float32) : Option String :=
   if nmin = 0 ∨ nmax = 0 then some "InvalidNGramBoundaries"
   else if nmin > nmax then some "FlippedNGramBoundaries"
-  else if lo < 0 ∨ hi < 0 then some "InvalidDocumentFrequencies"
+  else if lo < 0 ∨ hi < 0 ∨ lo > 1 ∨ hi > 1 then some "InvalidDocumentFrequencies"
   else if hi < lo then some "FlippedDocumentFrequencies"
   else none
 
